@@ -132,6 +132,7 @@ class ProcessEventNotifier:
             stderr=stderr,
             universal_newlines=True,
             encoding='utf8',
+            errors='replace',
             shell=shell,
         )
         if self.pid_queue:
